@@ -8,7 +8,7 @@ from pyvc.values import *  # noqa
 from pyvc.contract import FnContract, Case, register, rk_dyn, rk_none
 from pyvc.exec import LoopSpec
 from .classes import method_setup, path_clause, CORE
-from .prims import fcontract, S_, _param_int, _param_truth, _avail, result_int, stream_error, buffer_same, generic_raise
+from .prims import size_is, fcontract, S_, _param_int, _param_truth, _avail, result_int, stream_error, buffer_same, generic_raise
 from .specs import forall_range
 
 T = ('C03', 'C01', 'C02', 'C05', 'C06', 'C08')
@@ -126,7 +126,7 @@ fcontract('Padded', '_build', [
 
 fcontract('Padded', '_sizeof', [
     Case('ok', 'return', lambda pre: t.ge(_param_int(pre, 'length'), t.ZERO),
-         ensures=lambda pre, post: [('size-is-length', t.eq(result_int(post)[0], _param_int(pre, 'length')), ('C05',))], rkind=rk_dyn),
+         ensures=lambda pre, post: [('size-is-length', size_is(post, _param_int(pre, 'length')), ('C05',))], rkind=rk_dyn),
     Case('negative', 'raise', lambda pre: t.lt(_param_int(pre, 'length'), t.ZERO)),
 ], tags=('C05',))
 
@@ -194,7 +194,7 @@ fcontract('Aligned', '_build', [
 def _aligned_sizeof_ok(pre, post):
     m = _param_int(pre, 'modulus')
     z = Sub(pre, 'subcon', kind='sizeof')
-    return [('size-is-inner-size-rounded-up-to-modulus', t.eq(result_int(post)[0], t.add(z.val, _pad_to(z.val, m))), ('C05',))]
+    return [('size-is-inner-size-rounded-up-to-modulus', size_is(post, t.add(z.val, _pad_to(z.val, m))), ('C05',))]
 
 
 fcontract('Aligned', '_sizeof', [
@@ -364,7 +364,7 @@ def _bwo_off(view):
 BWO = 'construct.core:BytesIOWithOffsets'
 register(FnContract(BWO + '.tell', setup=bwo_setup, tags=('C08',), cases=[
     Case('ok', 'return', lambda pre: t.TRUE, rkind=rk_dyn,
-         ensures=lambda pre, post: [('tell-is-inner-position-plus-parent-offset', t.eq(result_int(post)[0], t.add(_bwo(pre).pos, _bwo_off(pre))), ('C08',)),
+         ensures=lambda pre, post: [('tell-is-inner-position-plus-parent-offset', size_is(post, t.add(_bwo(pre).pos, _bwo_off(pre))), ('C08',)),
                                     ('position-unchanged', t.eq(_bwo(post).pos, _bwo(pre).pos), ('C08',))])]))
 
 
@@ -382,7 +382,7 @@ def _bwo_seek_ok(pre):
 register(FnContract(BWO + '.seek', setup=bwo_setup, tags=('C08',), cases=[
     Case('ok', 'return', _bwo_seek_ok, rkind=rk_dyn,
          ensures=lambda pre, post: [('absolute-seek-subtracts-the-parent-offset', t.eq(_bwo(post).pos, _bwo_seek_target(pre)), ('C08',)),
-                                    ('returns-the-new-absolute-position', t.eq(result_int(post)[0], t.add(_bwo_seek_target(pre), _bwo_off(pre))), ('C08',)),
+                                    ('returns-the-new-absolute-position', size_is(post, t.add(_bwo_seek_target(pre), _bwo_off(pre))), ('C08',)),
                                     ('buffer-unchanged', t.and_(t.eq(_bwo(post).buf, _bwo(pre).buf), t.eq(_bwo(post).len, _bwo(pre).len)), ('C08',))]),
     Case('invalid', 'raise', lambda pre: t.not_(_bwo_seek_ok(pre)), exc='ValueError')]))
 
@@ -487,7 +487,7 @@ fcontract('FixedSized', '_build', [
 
 fcontract('FixedSized', '_sizeof', [
     Case('ok', 'return', lambda pre: t.ge(_param_int(pre, 'length'), t.ZERO),
-         ensures=lambda pre, post: [('size-is-length', t.eq(result_int(post)[0], _param_int(pre, 'length')), ('C05',))], rkind=rk_dyn),
+         ensures=lambda pre, post: [('size-is-length', size_is(post, _param_int(pre, 'length')), ('C05',))], rkind=rk_dyn),
     Case('negative', 'raise', lambda pre: t.lt(_param_int(pre, 'length'), t.ZERO)),
 ], tags=('C05',))
 
@@ -553,3 +553,25 @@ fcontract('Prefixed', '_build', [
     Case('ok', 'return', _pf_build_guard, ensures=_pf_build_ok, rkind=rk_dyn, modifies=['stream']),
     Case('rejects', 'raise', lambda pre: t.not_(_pf_build_guard(pre)), ensures=generic_raise, modifies=['stream']),
 ], tags=T)
+
+
+# ------------------------------------------------------------------------------------------------ more _sizeof contracts (C05)
+fcontract('Const', '_sizeof', [
+    Case('ok', 'return', lambda pre: Sub(pre, 'subcon', kind='sizeof').ok,
+         ensures=lambda pre, post: [('size-is-inner-size', size_is(post, Sub(pre, 'subcon', kind='sizeof').val), ('C05',))], rkind=rk_dyn),
+    Case('no-size', 'raise', lambda pre: t.not_(Sub(pre, 'subcon', kind='sizeof').ok)),
+], tags=('C05',))
+
+fcontract('Flag', '_sizeof', [
+    Case('ok', 'return', lambda pre: t.TRUE, ensures=lambda pre, post: [('size-is-one', size_is(post, t.ONE), ('C05',))], rkind=rk_dyn)], tags=('C05',))
+
+
+def _pf_sizeof_ok(pre):
+    return t.and_(Sub(pre, 'lengthfield', kind='sizeof').ok, Sub(pre, 'subcon', kind='sizeof').ok)
+
+
+fcontract('Prefixed', '_sizeof', [
+    Case('ok', 'return', _pf_sizeof_ok,
+         ensures=lambda pre, post: [('size-is-prefix-plus-payload', size_is(post, t.add(Sub(pre, 'lengthfield', kind='sizeof').val, Sub(pre, 'subcon', kind='sizeof').val)), ('C05',))], rkind=rk_dyn),
+    Case('no-size', 'raise', lambda pre: t.not_(_pf_sizeof_ok(pre))),
+], tags=('C05',))
